@@ -26,14 +26,17 @@ TOL_V = {"nr": 1e-7, "loose": 1e-5}        # p.u., complex difference (DESIGN 2.
 TOL_S_ABS, TOL_S_REL = 1e-5, 1e-7          # MVA: max(1e-5, 100*tolerance_mva) with tolerance_mva = 1e-8
 
 
+QLIMS = [False, True]
+
+
 def configs():
-    """the full Cartesian option product, deterministic order (72 configurations)"""
-    return [{"alg": a, "numba": n, "ls2g": l, "init": i}
-            for a, n, l, i in itertools.product(ALGS, NUMBA, LS2G, INITS)]
+    """the full Cartesian option product, deterministic order (72 configurations x enforce_q_lims {F, T})"""
+    return [{"alg": a, "numba": n, "ls2g": l, "init": i, "qlim": q}
+            for q, a, n, l, i in itertools.product(QLIMS, ALGS, NUMBA, LS2G, INITS)]
 
 
 def cfg_name(c):
-    return "%s|numba=%s|ls2g=%s|init=%s" % (c["alg"], c["numba"], c["ls2g"], c["init"])
+    return "%s|numba=%s|ls2g=%s|init=%s%s" % (c["alg"], c["numba"], c["ls2g"], c["init"], "|qlim" if c.get("qlim") else "")
 
 
 def snapshot(net):
@@ -99,7 +102,8 @@ def run_alt(net, c):
     """run one alternative configuration on net (which already holds default NR results when init=results).
     returns (outcome, message)"""
     try:
-        pp.runpp(net, algorithm=c["alg"], numba=c["numba"], lightsim2grid=c["ls2g"], init=c["init"])
+        pp.runpp(net, algorithm=c["alg"], numba=c["numba"], lightsim2grid=c["ls2g"], init=c["init"],
+                 enforce_q_lims=bool(c.get("qlim")))
     except Exception as e:
         return type(e).__name__, str(e)[:200]
     if not net.converged:
@@ -214,7 +218,7 @@ def warm_all():
     with contextlib.redirect_stdout(io.StringIO()):
         for b, devs in (("R3", []), ("R3", [["gen", 2, 1.0, 1.01, "wide", False, True]]),
                         ("R3", [["shunt", 2, 0.1, -0.5, 1, 1.0, True]]), ("I2", []), ("W3", []),
-                        ("I2", [["gen", 3, 0.5, 1.01, "wide", False, True]])):
+                        ("I2", [["gen", 3, 0.5, 1.01, "wide", False, True]]), ("G2", []), ("TS", [])):
             net0 = c_nets.build({"base": b, "devs": devs})
             ref = copy.deepcopy(net0)
             try:
